@@ -44,7 +44,7 @@ CLAIMED = {
          "Families with empty sets are partitions iff their non-empty sets are.", "DESIGN.md §4 C12"),
  "C13": ("exploration", "deterministic simulation: Louvain under a logical step clock (allocation budget = bounded-liveness check, replayable because the count is a function of the seed) x 4-8 hash keyings x seeds; nestedness and modularity monotonicity vs the harness's own Newman formula",
          "Every louvain call on graphs of all kinds (cycles, paths, stars, cliques, bipartite, unions, rings of cliques, hubs with nearly tied alternatives; n <= 40, rings of 60-120 nodes, dense graphs of up to 12 500 edges; weights incl. 1e-17-scale and overflowing sums) runs under a step budget: exceeding it is reported as non-termination with a replay file; Ok results are checked for partition, nesting, non-decreasing modularity, communities = last level. Termination cannot be proven by sampling; the budget makes it a bounded, replayable check.",
-         "Budget 3e5 + 3e4 (n+m) allocations; max observed / budget recorded in the evidence.", "DESIGN.md §2.3, §4 C13"),
+         "Budget 3e5 + 3e5 (n+m) allocations; max observed / budget recorded in the evidence.", "DESIGN.md §2.3, §4 C13"),
  "C14": ("exploration", "deterministic simulation: seeded graphs with adversarial Unicode names and f64 bit patterns, write -> read under 3-5 hash keyings (document edge order is hash order), string and file variants",
          "Round trip of graphs of every kind: names in order, directedness, edge multiset with bit-identical weights, parallel-edge order, file = string document. Thin simulator dimension (keying); the file system is real and fault-free. Sampled (4e4 / 1e6 graphs).",
          "Control characters excluded (as the property says).", "DESIGN.md §4 C14"),
